@@ -20,7 +20,7 @@ RULE = ("term lists over {x,a} up to degree 5 with numeric constants; namespaces
 PRIMES = [2, 3, 5, 7, 11, 13, 17, 19, 23, 29, 31, 37, 41, 43]
 
 def fingerprints():
-    return {}
+    return fingerprint_defs('coba/encodings.py', ['InteractionsEncoder'])
 
 def gen_terms(rng):
     ts = []
@@ -42,9 +42,11 @@ def gen_ns(rng, mode):
     ps = rng.sample(PRIMES, len(PRIMES))
     if k < 0.08: return None
     if k < 0.14: return "ABSENT"
-    if k < 0.22: return ps[0]                                    # scalar
+    if k < 0.22: return rng.choice([ps[0], ps[1], 0, 1])             # scalar (0 is a legal feature value)
     if mode == "dense" or k < 0.5:
-        return ps[:rng.choice([0, 1, 2, 3, 4, 4, 5, 6])]
+        out = ps[:rng.choice([0, 1, 2, 3, 4, 4, 5, 6])]
+        if out and rng.random() < 0.15: out[rng.randrange(len(out))] = 0
+        return out
     if k < 0.75:
         keys = rng.sample(["p", "q", "r", "s", "t"], rng.choice([0, 1, 2, 3, 4]))
         return {kk: (ps[i] if rng.random() < 0.8 else rng.choice(["u", "v"])) for i, kk in enumerate(keys)}
@@ -107,20 +109,27 @@ def wire(terms, nsv):
     return [1, const, wt, [[ord(ns), [[s_str(k), isinstance(y, str), s_str(y) if isinstance(y, str) else [], 0 if isinstance(y, str) else y]
                                       for k, y in features_sparse(v)]] for ns, v in nsv.items()]]
 
-def run_impl(terms, nsv):
+_ENC = {}
+def run_impl(terms, nsv, reuse=None):
+    """reuse: a key; calls with the same key share one InteractionsEncoder object (an encoder is used for many calls)"""
     from coba.encodings import InteractionsEncoder
     kw = {ns: v for ns, v in nsv.items() if not (isinstance(v, str) and v == "ABSENT")}
     try:
-        return InteractionsEncoder(terms).encode(**kw)
+        if reuse is None: enc = InteractionsEncoder(terms)
+        else:
+            if reuse not in _ENC: _ENC.clear(); _ENC[reuse] = InteractionsEncoder(terms)
+            enc = _ENC[reuse]
+        return enc.encode(**kw)
     except Exception as e:
         return ("EXC", errname(e), str(e)[:80])
 
 def check(ctx, cases, kind):
     model = ctx.get_model()
-    mouts = model.batch([(20, wire(t, n)) for t, n in cases])
-    for (terms, nsv), mo in zip(cases, mouts):
-        case = dict(terms=terms, namespaces={k: v for k, v in nsv.items()})
-        got = run_impl(terms, nsv)
+    cases = [c if len(c) == 3 else (c[0], c[1], None) for c in cases]
+    mouts = model.batch([(20, wire(t, n)) for t, n, _ in cases])
+    for (terms, nsv, reuse), mo in zip(cases, mouts):
+        case = dict(terms=terms, namespaces={k: v for k, v in nsv.items()}, call_on_shared_encoder=reuse)
+        got = run_impl(terms, nsv, reuse)
         exp = expected(terms, nsv)
         if exp == "AMBIGUOUS": continue
         nontrivial = any(isinstance(t, str) and all(features_dense(nsv.get(ns)) or features_sparse(nsv.get(ns)) for ns in set(t)) for t in terms)
@@ -167,9 +176,23 @@ def run(ctx):
     check(ctx, systematic(), "systematic")
     rng = ctx.rng
     cases = []
-    for _ in range(ctx.n(600, 8000)):
+    for i in range(ctx.n(600, 8000)):
         mode = rng.choice(["dense", "dense", "sparse"])
-        cases.append((gen_terms(rng), {"x": gen_ns(rng, mode), "a": gen_ns(rng, mode)}))
+        terms = gen_terms(rng)
+        nsv = {"x": gen_ns(rng, mode), "a": gen_ns(rng, mode)}
+        cases.append((terms, nsv, i))
+        # the same encoder object is used again: other values, same feature names in another order, other shapes
+        for _ in range(rng.choice([0, 1, 2, 3])):
+            nxt = {}
+            for ns, v in nsv.items():
+                k = rng.random()
+                if isinstance(v, dict) and v and k < 0.6:
+                    ks = list(v); rng.shuffle(ks); ps = rng.sample(PRIMES, len(ks))
+                    nxt[ns] = {kk: (ps[j] if not isinstance(v[kk], str) else v[kk]) for j, kk in enumerate(ks)}
+                elif isinstance(v, list) and k < 0.6: nxt[ns] = [(p if not isinstance(o, str) else o) for o, p in zip(v, rng.sample(PRIMES, len(v)))]
+                else: nxt[ns] = gen_ns(rng, mode)
+            nsv = nxt
+            cases.append((terms, nsv, i))
     check(ctx, cases, "random")
 
 def replay(r):
